@@ -280,10 +280,8 @@ def semFunc (name : String) (args : List Value) : PyResult :=
   | "date", [.str s] => .ok (match parseDateISO s with | some d => .date d | none => .null)
   | "date", [_] => .ok .null
   | "date", [.int y, .int m, .int d] =>
-    -- `datetime.date(y, m, d)` converts its arguments to C ints first: OverflowError, which `date()` does not catch
-    if y > 2147483647 || m > 2147483647 || d > 2147483647 || y < -2147483648 || m < -2147483648 || d < -2147483648 then
-      .error "OverflowError"
-    else if y < 0 || m < 0 || d < 0 then .ok .null else
+    -- parts outside the calendar (ValueError) and parts beyond a C int (OverflowError) both give NULL
+    if y < 0 || m < 0 || d < 0 then .ok .null else
       let dt : Date := ⟨y.toNat, m.toNat, d.toNat⟩
       .ok (if dt.valid then .date dt else .null)
   | "neg", [.dec d] => .ok (.dec (Dec.neg d))
